@@ -18,6 +18,39 @@ pub fn worker(case: &Value) -> Value {
         return json!({"n": 1, "bad": [], "observed": {"stdout": o.stdout_str(), "end": format!("{:?}", o.end), "type_violation": o.mon.and_then(|m| m.type_violation)}});
     }
     let group = case["group"].as_str().unwrap_or("");
+    if group == "monitor" {
+        // programs judged by the in-VM monitor alone (the values involved are outside the reference's domain):
+        // the run ends normally or with a BASIC error, and no variable ever holds a value of another type, out of
+        // range or not finite
+        let mut bads = vec![];
+        let mut hist: std::collections::BTreeMap<String, u64> = Default::default();
+        let mut n = 0u64;
+        for (label, text, stdin) in monitor_programs() {
+            let opts = RunOpts { stdin: stdin.as_bytes().to_vec(), check_types: true, budget: 400_000, ..RunOpts::default() };
+            let o = run_pipeline(&text, &opts);
+            n += 1;
+            let offence = match (&o.end, o.mon.as_ref().and_then(|m| m.type_violation.clone())) {
+                (_, Some((pc, what))) => Some(format!("type-monitor|{}", label.split(':').next().unwrap_or("")) + &format!("||a variable holds a value of another type, out of range or not finite (first seen at instruction {}): {}", pc, what)),
+                (vcore::outcome::End::Normal | vcore::outcome::End::RuntimeError { .. }, None) => None,
+                (other, None) => Some(format!("not-a-basic-outcome|{}||the run ended with {}", label.split(':').next().unwrap_or(""), other.class())),
+            };
+            match offence {
+                None => *hist.entry(format!("monitor-clean:{}", o.end.class())).or_insert(0) += 1,
+                Some(m) => {
+                    *hist.entry("differ".into()).or_insert(0) += 1;
+                    let (sig, msg) = m.split_once("||").unwrap();
+                    bads.push(json!({
+                        "sig": format!("C06|monitor|{}", sig),
+                        "summary": format!("{} — {} — stdin {:?} — program: {:?}", msg, label, stdin, super::truncate_text(&text, 300)),
+                        "text": text,
+                        "stdin": stdin,
+                        "case": {"axis": "text", "text": text, "stdin": stdin},
+                    }));
+                }
+            }
+        }
+        return json!({"n": n, "nontrivial": n, "hist": hist, "bad": bads});
+    }
     let lo = case["lo"].as_u64().unwrap() as usize;
     let hi = case["hi"].as_u64().unwrap() as usize;
     let all = match group {
@@ -39,6 +72,48 @@ pub fn worker(case: &Value) -> Value {
     json!({"n": r.n, "nontrivial": r.nontrivial, "hist": r.hist, "bad": r.bads, "sample": sample})
 }
 
+/// (label, program, stdin)
+fn monitor_programs() -> Vec<(String, String, String)> {
+    let mut out = vec![];
+    let types = [("%", "INTEGER"), ("&", "LONG"), ("!", "SINGLE"), ("#", "DOUBLE")];
+    // the result of a built-in function stored into a variable of every type, through every storing route
+    let calls = [
+        "VAL(\"5\")", "VAL(\"30000\")", "VAL(\"70000\")", "VAL(\"2.5\")", "VAL(\"-7\")", "VAL(\"3.14159265358979\")", "VAL(\"3000000000\")",
+        "VAL(STRING$(60, \"9\"))", "VAL(STRING$(400, \"9\"))", "VAL(\".\" + STRING$(400, \"9\"))", "VAL(\"1E39\")", "VAL(\"1D400\")", "VAL(\"-1E400\")",
+        "LEN(\"abc\")", "INSTR(\"abc\", \"c\")", "CVD(MKD$(2.5#))", "CVD(MKD$(70000.5#))", "PEEK(VARPTR(P%))", "VARPTR(P%)", "VARSEG(P%)", "LBOUND(BIG#)", "UBOUND(BIG#)", "EOF(1)", "ERR",
+    ];
+    for call in calls {
+        for (sfx, _) in types {
+            for route in 0..4 {
+                let store = match route {
+                    0 => format!("T{} = {}\nU{} = T{} + 0\n", sfx, call, sfx, sfx),
+                    1 => format!("AR{}(1) = {}\nU{} = AR{}(1) + 0\n", sfx, call, sfx, sfx),
+                    2 => format!("R.F{} = {}\n", match sfx { "%" => "I", "&" => "L", "!" => "S", _ => "D" }, call),
+                    _ => format!("T{} = ({})\nU{} = T{}\n", sfx, call, sfx, sfx),
+                };
+                let text = format!(
+                    "TYPE Rec\n  FI AS INTEGER\n  FL AS LONG\n  FS AS SINGLE\n  FD AS DOUBLE\nEND TYPE\nDIM R AS Rec\nDIM BIG#(9000)\nDIM AR%(2)\nDIM AR&(2)\nDIM AR!(2)\nDIM AR#(2)\nP% = 1\nOPEN \"e.txt\" FOR OUTPUT AS #1\nCLOSE\nOPEN \"e.txt\" FOR INPUT AS #1\n{}PRINT \"ok\"\n",
+                    store
+                );
+                out.push((format!("built-in result stored: {} -> {} route {}", call, sfx, route), text, String::new()));
+            }
+        }
+    }
+    // INPUT, INPUT # and READ of texts that do not denote a finite number of the target type
+    let texts = ["1e39", "1E39", "1e400", "-1e400", "nan", "NaN", "inf", "-inf", "infinity", "1e-400", "3.5e38", "1d39", "99999999999999999999999999999999999999999", "0x10", "1_000", "+5", "5.", ".5", "1e5", "-0"];
+    for t in texts {
+        for (sfx, _) in types {
+            out.push((format!("INPUT of {:?} -> {}", t, sfx), format!("INPUT T{}\nU{} = T{} + 0\nPRINT \"ok\"\n", sfx, sfx, sfx), format!("{}\n", t)));
+            out.push((
+                format!("INPUT # of {:?} -> {}", t, sfx),
+                format!("OPEN \"n.txt\" FOR OUTPUT AS #1\nPRINT #1, \"{}\"\nCLOSE\nOPEN \"n.txt\" FOR INPUT AS #1\nINPUT #1, T{}\nU{} = T{} + 0\nPRINT \"ok\"\n", t, sfx, sfx, sfx),
+                String::new(),
+            ));
+        }
+    }
+    out
+}
+
 pub fn drive(tier: &str) -> i32 {
     let mut run = Run::new("C06", tier);
     run.crash_is_violation = true;
@@ -55,6 +130,8 @@ pub fn drive(tier: &str) -> i32 {
         }
         plan.push(json!({"group": group, "snippets": total}));
     }
+    cases.push(json!({"group": "monitor"}));
+    plan.push(json!({"group": "monitor", "programs": monitor_programs().len()}));
     let total_cases = cases.len();
     let cap = run.wall_cap_s;
     let t0 = run.reporter.start;
@@ -64,7 +141,7 @@ pub fn drive(tier: &str) -> i32 {
         run.capped = true;
     }
     let mut ev = Evidence::new("exploration");
-    ev.set("rule", "conversions: for every ordered pair (source type, target type) of the four numeric types, every value of the target's boundary lattice {MIN-1, MIN-.75, MIN-.25, MIN, MIN+.25, MIN+1, -1, -.75, -.25, 0, .25, .75, 1, MAX-1, MAX-.25, MAX, MAX+.25, MAX+.75, MAX+1} that the source type can denote, delivered through 9 routes (assignment to a variable, an array element, a record field, by-value parameter, FUNCTION result, FOR start with the increment past it, READ, INPUT, FOR limit), the source as a literal and as a typed variable. arithmetic: + - * / MOD and unary minus on all pairs of the INTEGER and LONG boundary lattices (mixed types included), results printed and stored into INTEGER / LONG targets. float-extremes: + - * / and unary minus on every pair from {MAX, MAX/2, -MAX, -MAX/2} x {the same, 2, -2, .5, 2.0, 2.0#, 1, 0} (both orders) of SINGLE and of DOUBLE, printed and stored, observed through comparisons only (a result beyond the type is Overflow, a result that fits is exact); DOUBLE values MAX, MAX + 1 ulp and 2 * MAX of SINGLE stored into a SINGLE variable, array element, record field and FUNCTION result. for-steps: FOR with a counter of each numeric type and a step of another type (1.25, 1.75, 2.25, -1.25 as SINGLE / DOUBLE literals and variables, 2, 70000), and the increment past the INTEGER / LONG maximum with a fractional step. Each snippet is judged by the reference semantics (value or Overflow at the right row) and by the in-VM monitor (at every statement start every variable of the current memory block holds a value of its own type and range). Non-trivial = within one unit of a type boundary or beyond it.");
+    ev.set("rule", "conversions: for every ordered pair (source type, target type) of the four numeric types, every value of the target's boundary lattice {MIN-1, MIN-.75, MIN-.25, MIN, MIN+.25, MIN+1, -1, -.75, -.25, 0, .25, .75, 1, MAX-1, MAX-.25, MAX, MAX+.25, MAX+.75, MAX+1} that the source type can denote, delivered through 9 routes (assignment to a variable, an array element, a record field, by-value parameter, FUNCTION result, FOR start with the increment past it, READ, INPUT, FOR limit), the source as a literal and as a typed variable. arithmetic: + - * / MOD and unary minus on all pairs of the INTEGER and LONG boundary lattices (mixed types included), results printed and stored into INTEGER / LONG targets. float-extremes: + - * / and unary minus on every pair from {MAX, MAX/2, -MAX, -MAX/2} x {the same, 2, -2, .5, 2.0, 2.0#, 1, 0} (both orders) of SINGLE and of DOUBLE, printed and stored, observed through comparisons only (a result beyond the type is Overflow, a result that fits is exact); DOUBLE values MAX, MAX + 1 ulp and 2 * MAX of SINGLE stored into a SINGLE variable, array element, record field and FUNCTION result. for-steps: FOR with a counter of each numeric type and a step of another type (1.25, 1.75, 2.25, -1.25 as SINGLE / DOUBLE literals and variables, 2, 70000), and the increment past the INTEGER / LONG maximum with a fractional step. monitor: the result of 24 built-in calls (VAL of texts of every magnitude, LEN, INSTR, CVD, PEEK, VARPTR behind a 72 KB array, VARSEG, LBOUND / UBOUND, EOF, ERR) stored into a variable, array element and record field of every numeric type, and 20 input texts (1e39, 1e400, nan, inf, -inf, 41 digits, ...) read by INPUT and INPUT # into every numeric type — judged by the in-VM monitor alone (a BASIC-level outcome, and no variable ever holds a value of another type, out of range or not finite). Each snippet is judged by the reference semantics (value or Overflow at the right row) and by the in-VM monitor (at every statement start every variable of the current memory block holds a value of its own type and range). Non-trivial = within one unit of a type boundary or beyond it.");
     ev.set("exhaustive", !run.capped);
     ev.set("plan", json!(plan));
     ev.assume("R1: exact ties (x.5) are never converted to a whole-number type; SINGLE values are exactly representable");
